@@ -1089,6 +1089,11 @@ client_retransmit_through_tcp(struct evdns_request *handle)
 	handle->current_req = newreq;
 	newreq->handle = handle;
 	request_submit(newreq);
+	/* The clone was made while the old request still occupied an inflight
+	 * slot: with the inflight limit reached it went to the waiting queue,
+	 * after request_finished() had pumped that queue.  Pump again, or it
+	 * waits until some unrelated request finishes (forever, if none). */
+	evdns_requests_pump_waiting_queue(base);
 	return 0;
 }
 
@@ -4158,6 +4163,11 @@ submit_next:
 	handle->current_req = newreq;
 	newreq->handle = handle;
 	request_submit(newreq);
+	/* The clone was made while the old request still occupied an inflight
+	 * slot: with the inflight limit reached it went to the waiting queue,
+	 * after request_finished() had pumped that queue.  Pump again, or it
+	 * waits until some unrelated request finishes (forever, if none). */
+	evdns_requests_pump_waiting_queue(base);
 	return 0;
 }
 
